@@ -22,7 +22,7 @@ CONSTANTS Front,        \* "v2" | "legacy"
           MaxExpress    \* user Interests expressed at most this often
 
 VARIABLES ml,        \* main_loop: "none" | "opening" | "running" | "draining" | "ret"
-          res,       \* how the last main_loop ended: "none" | "true" | "false" | "openerr" | "aftererr" | "cancelled"
+          res,       \* how the last main_loop ended: "none" | "true" | "false" | "openerr" | "aftererr" | "cancelled" | "runerr"
           want,      \* value main_loop will return once the starting task is finished ("true" | "false")
           face,      \* face.running
           conn,      \* number of main_loop calls so far
@@ -69,6 +69,7 @@ Drain(s, a, w) ==
 ----------------------------------------------------------------------------
 StartMain(a) ==
     /\ ml \in {"none", "ret"} /\ conn < MaxConn
+    /\ st \in {"none", "done", "aftererr", "cancelled"}      \* (the previous starting task is over)
     /\ ml' = "opening" /\ res' = "none" /\ want' = "true" /\ conn' = conn + 1
     /\ st' = "none" /\ regi' = 0 /\ after' = IF a THEN "given" ELSE "absent"
     /\ UNCHANGED <<face, cmds, pend, out, attached>>
@@ -108,7 +109,7 @@ AfterFinish ==
 
 \* an exception in after_start shuts the face down and ends main_loop with that exception
 AfterRaise ==
-    /\ after = "started"
+    /\ after = "started" /\ ml # "ret"          \* (after a transport failure nobody waits for the starting task any more)
     /\ after' = "raised" /\ st' = "aftererr" /\ face' = FALSE
     /\ ml' = "ret" /\ res' = "aftererr"
     /\ IF ml = "running" THEN CleanPend /\ CleanAttached ELSE UNCHANGED <<pend, out, attached>>
@@ -125,6 +126,17 @@ Down(kind) ==
        IF st = "reg" THEN Drain(AfterStep(after).st, AfterStep(after).after, w)
        ELSE Drain(st, after, w)
     /\ UNCHANGED <<conn, cmds>>
+
+\* the transport fails: face.run() raises (connection aborted, broken pipe, ...). main_loop passes the exception on,
+\* but the connection is gone all the same: the face is shut down and everything pending is cancelled. The starting task
+\* is not waited for (an after_start that is running goes on by itself).
+DownError ==
+    /\ ml = "running"
+    /\ CleanPend /\ CleanAttached
+    /\ face' = FALSE /\ ml' = "ret" /\ res' = "runerr" /\ regi' = 0
+    /\ IF st = "reg" THEN st' = AfterStep(after).st /\ after' = AfterStep(after).after
+                     ELSE UNCHANGED <<st, after>>
+    /\ UNCHANGED <<want, conn, cmds>>
 
 \* the main_loop task is cancelled while it waits for after_start to finish: both end cancelled
 CancelDraining ==
@@ -150,7 +162,7 @@ Next == \/ \E a \in BOOLEAN : StartMain(a)
         \/ \E k \in {"ok", "fail", "nack", "timeout"} : Reply(k)
         \/ AfterFinish \/ AfterRaise
         \/ \E k \in {"shutdown", "eof", "cancel"} : Down(k)
-        \/ CancelDraining
+        \/ CancelDraining \/ DownError
         \/ Express \/ Satisfy
 
 Spec == Init /\ [][Next]_vars
@@ -159,7 +171,7 @@ FairSpec == Spec /\ WF_vars(OpenOk) /\ WF_vars(Reply("ok")) /\ WF_vars(AfterFini
 ----------------------------------------------------------------------------
 TypeOK ==
     /\ ml \in {"none", "opening", "running", "draining", "ret"}
-    /\ res \in {"none", "true", "false", "openerr", "aftererr", "cancelled"}
+    /\ res \in {"none", "true", "false", "openerr", "aftererr", "cancelled", "runerr"}
     /\ want \in {"true", "false"} /\ face \in BOOLEAN /\ conn \in 0..MaxConn
     /\ st \in {"none", "reg", "after", "done", "aftererr", "cancelled"}
     /\ regi \in 0..NRoutes /\ pend \in 0..MaxExpress
@@ -171,7 +183,7 @@ FaceIffRunning == face <=> ml = "running"
 \* nothing stays pending once the connection is gone, and nothing new is accepted
 NoPendingWhenDown == ~face => pend = 0
 \* when main_loop has returned the starting task is over as well
-ReturnedMeansQuiet == ml = "ret" => st \in {"none", "done", "aftererr", "cancelled"}
+ReturnedMeansQuiet == (ml = "ret" /\ res # "runerr") => st \in {"none", "done", "aftererr", "cancelled"}
 \* routes are registered in declaration order, each at most once per connection ...
 CmdsOf(c) == SelectSeq(cmds, LAMBDA x : x[1] = c)
 OncePerConnection ==
